@@ -8,7 +8,7 @@ compiled evaluator and must be odd, strictly increasing, continuous and equal to
 """
 import math
 
-from vlib.gen import net as gnet
+from vlib.gen import net as gnet, ctrlgen
 from vlib.ref import hyd as ref
 from vlib import simobs
 from vlib.props import common
@@ -30,7 +30,7 @@ BUCKETS = ['pipe_open', 'pipe_closed', 'cv_open', 'cv_closed', 'headpump1_open',
 _QF = {'pipe_open': 2000, 'pipe_closed': 300, 'cv_open': 400, 'cv_closed': 200, 'headpump1_open': 90, 'headpump2_open': 90,
        'headpump3_open': 90, 'headpump_closed': 10, 'powerpump_open': 60, 'PRV_active': 20, 'PRV_open': 15, 'PRV_closed': 40,
        'PSV_active': 3, 'PSV_open': 40, 'PSV_closed': 15, 'FCV_active': 15, 'FCV_open': 60, 'FCV_closed': 5, 'TCV_active': 70,
-       'TCV_open': 20, 'TCV_closed': 10, 'link_steps': 4000, 'sweep_points': 20000, 'recalibrated_runs': 8}
+       'TCV_open': 20, 'TCV_closed': 10, 'link_steps': 4000, 'sweep_points': 20000, 'recalibrated_runs': 8, 'setting_control_cases': 15}
 FLOORS = {'quick': {'conclusive': 100, 'distinct_nontrivial': 50, 'counters': _QF},
           'thorough': {'conclusive': 1400, 'distinct_nontrivial': 600, 'counters': {k: 10 * v for k, v in _QF.items()}}}
 CASE_TIMEOUT = {'quick': 120, 'thorough': 300}
@@ -101,6 +101,10 @@ def run_case(c, rng):
         spec = gnet.gen_spec(rng, p_pump_source=0.6, pump_curves=(1, 3), p_power_pump=0.3, n_valve=(0, 2), p_cv=0.25,
                              p_closed=0.15, p_minor=0.5, p_booster=0.3, p_tank_pump=0.15,
                              n_junc=(3, 12) if c.tier == 'quick' else (3, 30))
+    if spec['valves'] and rng.random() < 0.5:
+        # valve settings changed by time controls during the run: the law must follow the reported setting
+        ctrlgen.add_random_controls(spec, rng, n=(1, 2), kinds=('setting',))
+        c.count('setting_control_cases')
     wn = gnet.build(spec)
     hw = rng.choice(['default', 'piecewise'])
     c.sample = {'spec_summary': gnet.signature(spec), 'HW_approx': hw, 'rig': kind == 3}
